@@ -189,3 +189,6 @@ package domain
 //@ requires_held index.beforeFirst mu R
 //@ holds_during index.read mu R
 //@ lock_order index.deleteLock < index.mu
+//@ requires_held validateDelete idx.mu W
+//@ requires_held indexPersist.prepare idx.mu R
+//@ unshared Open the index is built before it is reachable from any other goroutine
